@@ -5,6 +5,12 @@ sys.path.insert(0, '/verif/lib')
 import props
 
 LEVEL = {
+ "C08": ("Alist.tla specifies the token-level format (writer, padded/unpadded, ValidAlist) and the line-oriented parser of from_alist as a state machine. TLC checks on every matrix up to 3x3 "
+         "(3x4 thorough) and both paddings that the written text conforms, is valid and parses back, and on ~10^4 token soups that the parser machine never panics and accepts every valid text; the "
+         "as-found parser without range check and the as-found padding underflow are negative configurations. The real writer/parser are bound by trace validation: tokenised real output judged by "
+         "WriteConforms + parse-back equality, and mutated/soup texts judged for totality and acceptance of valid texts.",
+         "TLC + Json/IOUtils; harness tokeniser (split on newline / whitespace, digit strings to integers); declared dimensions <= 20000.",
+         "TLA+ model checking of writer/parser state machine + trace validation", "5 C08"),
  "C02": ("Encoder.tla models from_h/encode as coded (staircase test, Gauss-Jordan step machine in Linalg.tla, dense and accumulator arms); TLC checks on every binary "
          "matrix up to 3x4 (3x5 thorough) that the verdict equals kernel-brute-force invertibility of the tail and that every codeword is systematic, satisfies H and is linear. "
          "The real encoder is bound by trace validation: the same exhaustive matrices plus random classes up to 12x30 are run through Encoder::from_h/encode and TLC judges every "
